@@ -263,7 +263,11 @@ func genSession(g, f *sim.Stream, tier string) (pieces []*replPiece, finalExpr s
 			if vs := earlierIntVars(pos); len(vs) > 0 {
 				name = vs[f.Intn(len(vs))]
 			}
-			switch f.Intn(3) {
+			switch f.Intn(5) {
+			case 3, 4:
+				// the rejected piece introduces an attribute name before failing
+				attr := []string{"append", "reverse", "copy", "count", "index", "sort", "filter", "pop", "map", "each", "extend"}[f.Intn(11)]
+				fp.Src = fmt.Sprintf("mark(%d, 1); [1, 2].%s(undefined_a%d)", id, attr, i)
 			case 0:
 				fp.Src = fmt.Sprintf("for %s := 0; %s < 2; %s++ { mark(%d, 1); undefined_b%d }", name, name, name, id, i)
 			case 1:
